@@ -213,6 +213,7 @@ def run_history(version, ops, behaviours, connects, token, key, device_id=77, re
                     coro = lan.send(op[1]) if op[0] == "sendc" else lan.authenticate(op[1], op[2])
                     task = asyncio.ensure_future(coro)
                     await asyncio.sleep(ms_ / 1000)
+                    res.setdefault("cancel_at", []).append(ms(loop.now()))
                     task.cancel()
                     try:
                         r = await task
@@ -252,6 +253,9 @@ def run_history(version, ops, behaviours, connects, token, key, device_id=77, re
     # ... nor one in which a peer event arrives in the very millisecond in which a read deadline (write + 2 s) falls
     deadlines = {(e["cid"], ms(e["t"]) + measure_params()[0]) for e in dev.log}
     if any(ct in deadlines for ct in rec.abs):
+        res["tie"] = True
+    # ... nor one in which the caller's cancellation falls in the very millisecond in which a peer event arrives
+    if any(t in set(res.get("cancel_at", [])) for _cid, t in rec.abs):
         res["tie"] = True
     res["dev"] = dev
     res["log"] = device_log(res.get("net"), dev)
@@ -322,6 +326,31 @@ def stack_line(ops, rx, connects, counter, params=None):
             f"counter={counter} ops={'|'.join(opstr(o) for o in ops)}")
 
 
+def hidden_events(res):
+    """which events of the model's log cannot be observed from outside: acceptance / forgetting of a key, and a client-side
+    close of a transport the peer has ALREADY closed (the arrival time of the peer's close is the time of the write it reacts
+    to plus its delay; a client-side close before that is observable)"""
+    per_cid = {}
+    for e in res["dev"].log:
+        per_cid.setdefault(e["cid"], []).append(ms(e["t"]))
+    peer_close_at = {}
+    for c, i, d, v in res["rx"]:
+        if v == "close" and i < len(per_cid.get(c, [])):
+            t = per_cid[c][i] + d
+            peer_close_at[c] = min(t, peer_close_at.get(c, t))
+        elif v == "close":
+            peer_close_at.setdefault(c, 0)
+
+    def hidden(ev):
+        t, name = ev.split(":", 1)
+        if name.startswith(("a", "f")):
+            return True
+        if name.startswith("x") and name[1:].isdigit() and int(name[1:]) in peer_close_at:
+            return int(t) >= peer_close_at[int(name[1:])]
+        return False
+    return hidden
+
+
 def compare_stack(ctx, stream, ops, connects, token, key, note=None):
     import simdev as sd
     orig_init = sd.SimDevice.__init__
@@ -346,8 +375,8 @@ def compare_stack(ctx, stream, ops, connects, token, key, note=None):
         mouts = out[4:].split(";") if out[4:] else []
         mevs = [e for e in log.split(";") if e]
         ilog = sort_log(res["log"])
-        peer_closed = {f"x{c}" for c, i, d, v in res["rx"] if v == "close"}
-        mlog = [e for e in mevs if not e.split(":", 1)[1].startswith(("a", "f")) and e.split(":", 1)[1] not in peer_closed]
+        hidden = hidden_events(res)
+        mlog = [e for e in mevs if not hidden(e)]
         mdev = mdev.replace("|", " ")
         import devrun as _dr
         canon_c, mdev = _dr.mask_unknown(res["canon"], mdev)
@@ -378,7 +407,12 @@ def device_log(net, dev):
             evs.append((t, 1, f"hs{e['cid']}.{e['counter']}.{hx(e['token'][:6])}"))
         elif e["kind"] == "data":
             key = e.get("_session_key_at_receipt")
-            evs.append((t, 1, f"d{e['cid']}.{e['counter']}.{hx((key or b'')[:6])}.{hx(e['frame']) if e.get('frame') else '?'}"))
+            ctr, frame = e["counter"], e.get("frame")
+            if e.get("alt") and not e.get("tag_ok"):
+                # rejected by the unit, but it verifies under an EARLIER key of the connection: the log shows what the
+                # client wrote (counter, key, frame), as the model's log does
+                key, ctr, frame = e["alt"]["key"], e["alt"]["counter"], e["alt"]["frame"]
+            evs.append((t, 1, f"d{e['cid']}.{ctr}.{hx((key or b'')[:6])}.{hx(frame) if frame else '?'}"))
         elif e["kind"] == "v2":
             evs.append((t, 1, f"v{e['cid']}.{hx(e['frame']) if e.get('frame') else '?'}"))
         else:
@@ -464,10 +498,12 @@ def compare(ctx, stream, version, ops, behaviours, connects, token, key, note=No
         mouts, mevs, mnow = parse_model(ctx.driver.ask(line))
         ilog = sort_log(res["log"])
         # acceptance events are not observable from outside: drop them from the model's log
-        peer_closed = {f"x{c}" for c, i, d, v in res["rx"] if v == "close"}
-        # (a client-side close of a transport the peer already closed is not observable either)
+        # (a client-side close of a transport the peer already closed is not observable either - but a client-side close
+        #  that happens BEFORE the peer's close arrives is: the arrival time of the peer's close is the time of the write it
+        #  reacts to plus its delay)
         # (nor is the forgetting of the old key at the start of a handshake)
-        mlog = [e for e in mevs if not e.split(":", 1)[1].startswith(("a", "f")) and e.split(":", 1)[1] not in peer_closed]
+        hidden = hidden_events(res)
+        mlog = [e for e in mevs if not hidden(e)]
         if mouts != res["outcomes"] or mlog != ilog:
             first = next((i for i, (a, b) in enumerate(zip(mlog, ilog)) if a != b), min(len(mlog), len(ilog)))
             ctx.disagree(stream, {**inp, "line": line[:3000]},
